@@ -33,8 +33,8 @@ theorem hardCriticalMergeGen_eq_model {α : Type} (mx mn : α → α → α) (ne
 
 def hardFromEpsGen (e : Rat) (gm gM r0 r1 : XVal) (relax nom : Rat) (critical hasMin hasMax hasT : Bool)
     (thr cr : Rat) (vt : XVal) (fix : Bool) (v : Rat) : XVal × XVal :=
-  ((if hasT then (xsub (xsel (xlt vt (XVal.fin e)) (xdiv (xsub (XVal.fin v) (XVal.fin relax)) (XVal.fin nom)) (xsel (!(XVal.isFinite gm)) (xneg XVal.pinf) (if (hasMin && hasMax) then (xsel ((!((xIsNan (if hasMin then (xadd (xmul (XVal.fin e) (if (!critical) then (xsub r0 gm) else (XVal.fin (0)))) (xdiv (xsub gm (XVal.fin relax)) (XVal.fin nom))) else (xneg XVal.pinf))) || (xIsNan (if hasMax then (xadd (xmul (XVal.fin e) (if (!critical) then (xsub r1 gM) else (XVal.fin (0)))) (xdiv (xadd gM (XVal.fin relax)) (XVal.fin nom))) else XVal.pinf)))) && (xlt (xabs (xsub (if hasMin then (xadd (xmul (XVal.fin e) (if (!critical) then (xsub r0 gm) else (XVal.fin (0)))) (xdiv (xsub gm (XVal.fin relax)) (XVal.fin nom))) else (xneg XVal.pinf)) (if hasMax then (xadd (xmul (XVal.fin e) (if (!critical) then (xsub r1 gM) else (XVal.fin (0)))) (xdiv (xadd gM (XVal.fin relax)) (XVal.fin nom))) else XVal.pinf))) (XVal.fin thr))) (xmul (XVal.fin (1 / 2)) (xadd (if hasMin then (xadd (xmul (XVal.fin e) (if (!critical) then (xsub r0 gm) else (XVal.fin (0)))) (xdiv (xsub gm (XVal.fin relax)) (XVal.fin nom))) else (xneg XVal.pinf)) (if hasMax then (xadd (xmul (XVal.fin e) (if (!critical) then (xsub r1 gM) else (XVal.fin (0)))) (xdiv (xadd gM (XVal.fin relax)) (XVal.fin nom))) else XVal.pinf))) (if hasMin then (xadd (xmul (XVal.fin e) (if (!critical) then (xsub r0 gm) else (XVal.fin (0)))) (xdiv (xsub gm (XVal.fin relax)) (XVal.fin nom))) else (xneg XVal.pinf))) else (if hasMin then (xadd (xmul (XVal.fin e) (if (!critical) then (xsub r0 gm) else (XVal.fin (0)))) (xdiv (xsub gm (XVal.fin relax)) (XVal.fin nom))) else (xneg XVal.pinf))))) (XVal.fin cr)) else (if (fix && (xeqX (XVal.fin relax) (XVal.fin (0)))) then (xdiv (XVal.fin e) (XVal.fin nom)) else (xmul (xneg XVal.pinf) (XVal.fin (1))))),
-   (if hasT then (xadd (xsel (xlt vt (XVal.fin e)) (xdiv (xadd (XVal.fin v) (XVal.fin relax)) (XVal.fin nom)) (xsel (!(XVal.isFinite gM)) XVal.pinf (if (hasMin && hasMax) then (xsel ((!((xIsNan (if hasMin then (xadd (xmul (XVal.fin e) (if (!critical) then (xsub r0 gm) else (XVal.fin (0)))) (xdiv (xsub gm (XVal.fin relax)) (XVal.fin nom))) else (xneg XVal.pinf))) || (xIsNan (if hasMax then (xadd (xmul (XVal.fin e) (if (!critical) then (xsub r1 gM) else (XVal.fin (0)))) (xdiv (xadd gM (XVal.fin relax)) (XVal.fin nom))) else XVal.pinf)))) && (xlt (xabs (xsub (if hasMin then (xadd (xmul (XVal.fin e) (if (!critical) then (xsub r0 gm) else (XVal.fin (0)))) (xdiv (xsub gm (XVal.fin relax)) (XVal.fin nom))) else (xneg XVal.pinf)) (if hasMax then (xadd (xmul (XVal.fin e) (if (!critical) then (xsub r1 gM) else (XVal.fin (0)))) (xdiv (xadd gM (XVal.fin relax)) (XVal.fin nom))) else XVal.pinf))) (XVal.fin thr))) (xmul (XVal.fin (1 / 2)) (xadd (if hasMin then (xadd (xmul (XVal.fin e) (if (!critical) then (xsub r0 gm) else (XVal.fin (0)))) (xdiv (xsub gm (XVal.fin relax)) (XVal.fin nom))) else (xneg XVal.pinf)) (if hasMax then (xadd (xmul (XVal.fin e) (if (!critical) then (xsub r1 gM) else (XVal.fin (0)))) (xdiv (xadd gM (XVal.fin relax)) (XVal.fin nom))) else XVal.pinf))) (if hasMax then (xadd (xmul (XVal.fin e) (if (!critical) then (xsub r1 gM) else (XVal.fin (0)))) (xdiv (xadd gM (XVal.fin relax)) (XVal.fin nom))) else XVal.pinf)) else (if hasMax then (xadd (xmul (XVal.fin e) (if (!critical) then (xsub r1 gM) else (XVal.fin (0)))) (xdiv (xadd gM (XVal.fin relax)) (XVal.fin nom))) else XVal.pinf)))) (XVal.fin cr)) else (if (fix && (xeqX (XVal.fin relax) (XVal.fin (0)))) then (xdiv (XVal.fin e) (XVal.fin nom)) else (xadd (xdiv (xadd (XVal.fin e) (XVal.fin relax)) (XVal.fin nom)) (XVal.fin cr)))))
+  ((if hasT then (xsub (xsel (xlt vt (XVal.fin e)) (xdiv (xsub (XVal.fin v) (XVal.fin relax)) (XVal.fin nom)) (xsel (!(XVal.isFinite gm)) (xneg XVal.pinf) (if (hasMin && hasMax) then (xsel ((!((xIsNan (if hasMin then (xdiv (xsub (xadd (xmul (XVal.fin e) (if (!critical) then (xsub r0 gm) else (XVal.fin (0)))) gm) (XVal.fin relax)) (XVal.fin nom)) else (xneg XVal.pinf))) || (xIsNan (if hasMax then (xdiv (xadd (xadd (xmul (XVal.fin e) (if (!critical) then (xsub r1 gM) else (XVal.fin (0)))) gM) (XVal.fin relax)) (XVal.fin nom)) else XVal.pinf)))) && (xlt (xabs (xsub (if hasMin then (xdiv (xsub (xadd (xmul (XVal.fin e) (if (!critical) then (xsub r0 gm) else (XVal.fin (0)))) gm) (XVal.fin relax)) (XVal.fin nom)) else (xneg XVal.pinf)) (if hasMax then (xdiv (xadd (xadd (xmul (XVal.fin e) (if (!critical) then (xsub r1 gM) else (XVal.fin (0)))) gM) (XVal.fin relax)) (XVal.fin nom)) else XVal.pinf))) (XVal.fin thr))) (xmul (XVal.fin (1 / 2)) (xadd (if hasMin then (xdiv (xsub (xadd (xmul (XVal.fin e) (if (!critical) then (xsub r0 gm) else (XVal.fin (0)))) gm) (XVal.fin relax)) (XVal.fin nom)) else (xneg XVal.pinf)) (if hasMax then (xdiv (xadd (xadd (xmul (XVal.fin e) (if (!critical) then (xsub r1 gM) else (XVal.fin (0)))) gM) (XVal.fin relax)) (XVal.fin nom)) else XVal.pinf))) (if hasMin then (xdiv (xsub (xadd (xmul (XVal.fin e) (if (!critical) then (xsub r0 gm) else (XVal.fin (0)))) gm) (XVal.fin relax)) (XVal.fin nom)) else (xneg XVal.pinf))) else (if hasMin then (xdiv (xsub (xadd (xmul (XVal.fin e) (if (!critical) then (xsub r0 gm) else (XVal.fin (0)))) gm) (XVal.fin relax)) (XVal.fin nom)) else (xneg XVal.pinf))))) (XVal.fin cr)) else (if (fix && (xeqX (XVal.fin relax) (XVal.fin (0)))) then (xdiv (XVal.fin e) (XVal.fin nom)) else (xmul (xneg XVal.pinf) (XVal.fin (1))))),
+   (if hasT then (xadd (xsel (xlt vt (XVal.fin e)) (xdiv (xadd (XVal.fin v) (XVal.fin relax)) (XVal.fin nom)) (xsel (!(XVal.isFinite gM)) XVal.pinf (if (hasMin && hasMax) then (xsel ((!((xIsNan (if hasMin then (xdiv (xsub (xadd (xmul (XVal.fin e) (if (!critical) then (xsub r0 gm) else (XVal.fin (0)))) gm) (XVal.fin relax)) (XVal.fin nom)) else (xneg XVal.pinf))) || (xIsNan (if hasMax then (xdiv (xadd (xadd (xmul (XVal.fin e) (if (!critical) then (xsub r1 gM) else (XVal.fin (0)))) gM) (XVal.fin relax)) (XVal.fin nom)) else XVal.pinf)))) && (xlt (xabs (xsub (if hasMin then (xdiv (xsub (xadd (xmul (XVal.fin e) (if (!critical) then (xsub r0 gm) else (XVal.fin (0)))) gm) (XVal.fin relax)) (XVal.fin nom)) else (xneg XVal.pinf)) (if hasMax then (xdiv (xadd (xadd (xmul (XVal.fin e) (if (!critical) then (xsub r1 gM) else (XVal.fin (0)))) gM) (XVal.fin relax)) (XVal.fin nom)) else XVal.pinf))) (XVal.fin thr))) (xmul (XVal.fin (1 / 2)) (xadd (if hasMin then (xdiv (xsub (xadd (xmul (XVal.fin e) (if (!critical) then (xsub r0 gm) else (XVal.fin (0)))) gm) (XVal.fin relax)) (XVal.fin nom)) else (xneg XVal.pinf)) (if hasMax then (xdiv (xadd (xadd (xmul (XVal.fin e) (if (!critical) then (xsub r1 gM) else (XVal.fin (0)))) gM) (XVal.fin relax)) (XVal.fin nom)) else XVal.pinf))) (if hasMax then (xdiv (xadd (xadd (xmul (XVal.fin e) (if (!critical) then (xsub r1 gM) else (XVal.fin (0)))) gM) (XVal.fin relax)) (XVal.fin nom)) else XVal.pinf)) else (if hasMax then (xdiv (xadd (xadd (xmul (XVal.fin e) (if (!critical) then (xsub r1 gM) else (XVal.fin (0)))) gM) (XVal.fin relax)) (XVal.fin nom)) else XVal.pinf)))) (XVal.fin cr)) else (if (fix && (xeqX (XVal.fin relax) (XVal.fin (0)))) then (xdiv (XVal.fin e) (XVal.fin nom)) else (xadd (xdiv (xadd (XVal.fin e) (XVal.fin relax)) (XVal.fin nom)) (XVal.fin cr)))))
 
 theorem hardFromEpsGen_eq_model (e : Rat) (gm gM r0 r1 : XVal) (relax nom : Rat)
     (critical hasMin hasMax hasT : Bool) (thr cr : Rat) (vt : XVal) (fix : Bool) (v : Rat) :
